@@ -57,7 +57,7 @@ PROPS = {
     ),
     "C20": dict(
         level="exploration",
-        modules=["specs.rbcommon", "specs.patching"],
+        modules=["specs.rbcommon", "specs.patching", "specs.diffrb"],
         provers=[("checks.effects_check", "run_c20")],
         bounded=[("bounded.c20", "run")],
         assumes=["A5", "A9", "A12"],
@@ -112,10 +112,16 @@ PROPS = {
     ),
     "C03": dict(
         level="exploration",
-        modules=["specs.patching", "specs.basediff"],
+        modules=["specs.patching", "specs.basediff", "specs.rbmatch", "specs.diffrb"],
         bounded=[("bounded.c03", "run")],
         assumes=["A2", "A3", "A5", "A9"],
-        trusted=["base_diff / default_diff / ordered_diff are proved against their spec (REMOVED rows of old absent from new at their old "
+        trusted=["make_diff and apply_diff_rb are proved: diff_pre attaches to every row the match of _match_row_to_rules, rows no rule "
+                 "matches are deleted from both (copied) trees and kept otherwise (lemma unknown_rows_dropped_known_rows_kept), "
+                 "the caller's trees are not modified; _rules_local_global / _find_rules_matches / _match_row_to_rules are proved "
+                 "relative to re.Pattern.match (all matching rules in rulebook order, none if an `ignore` rule matches). The "
+                 "composition make_diff -> call_diff_logic -> base_diff is by name only: call_diff_logic (dispatch on function "
+                 "values) is an assumed contract and the callees proved in other sidecars appear as opaque functions",
+                 "base_diff / default_diff / ordered_diff are proved against their spec (REMOVED rows of old absent from new at their old "
                  "index, rows of new ADDED / MOVED / parent's op by the index rule, merged by the index sort) for levels without an "
                  "%ignore_case rule, with lemmas: removed only if absent from new, added iff absent from old, nothing removed when all "
                  "rows stay; the list.sort() of (index, item) pairs is an opaque permutation (A3); call_diff_logic (dispatch on function "
